@@ -58,9 +58,10 @@ def run(n):
                         detail = line.strip()[:100]
                         break
                 break
-            if p.returncode != 0:
+            if p.returncode != 0 and res == 'SURVIVED':
+                # no verdict from this check (e.g. nothing could be observed
+                # because every configuration is rejected): ask the others
                 res, by, detail = 'INCONCLUSIVE', c, p.stdout[-200:].replace('\n', ' ')
-                break
     shutil.rmtree(scratch, ignore_errors=True)
     line = '\t'.join([n, res, by, where, desc, detail])
     with open(result, 'a') as f:
